@@ -13,6 +13,72 @@ SRC = os.path.realpath(os.environ.get('PAMQP_SRC', '/repo'))
 if SRC not in sys.path[:1]:
     sys.path.insert(0, SRC)
 
+# ---- cooperative locks for library code -----------------------------------
+# The pinned library has no locks.  A change that adds one (threading.Lock()
+# or RLock() created by a pamqp module) would deadlock a baton-passing
+# scheduler: the owner is parked while the baton holder blocks in acquire().
+# Locks created *by pamqp modules* are therefore wrapped: a blocking acquire
+# that cannot succeed hands the baton to another thread (the active run's
+# lock_yield) and retries.  Everything else gets the real primitives.
+import threading as _threading  # noqa: E402
+
+_REAL_LOCK = _threading.Lock
+_REAL_RLOCK = _threading.RLock
+LOCK_YIELD = [None]      # set by the active run: callable() or None
+
+
+class SimLock:
+    def __init__(self, real):
+        self._real = real
+
+    def acquire(self, blocking=True, timeout=-1):
+        if self._real.acquire(False):
+            return True
+        if not blocking:
+            return False
+        spins = 0
+        while not self._real.acquire(False):
+            y = LOCK_YIELD[0]
+            if y is None:
+                return self._real.acquire(True, timeout)
+            y()
+            spins += 1
+            if spins > 100000:
+                raise RuntimeError('library lock never became free')
+        return True
+
+    def release(self):
+        self._real.release()
+
+    def locked(self):
+        return self._real.locked()
+
+    def __enter__(self):
+        self.acquire()
+        return self
+
+    def __exit__(self, *a):
+        self.release()
+
+
+def _from_library():
+    f = sys._getframe(2)
+    return (f.f_globals.get('__name__') or '').split('.')[0] == 'pamqp'
+
+
+def _lock_factory(*a, **k):
+    real = _REAL_LOCK(*a, **k)
+    return SimLock(real) if _from_library() else real
+
+
+def _rlock_factory(*a, **k):
+    real = _REAL_RLOCK(*a, **k)
+    return SimLock(real) if _from_library() else real
+
+
+_threading.Lock = _lock_factory
+_threading.RLock = _rlock_factory
+
 import pamqp  # noqa: E402
 from pamqp import (base, body, commands, common, constants, decode,  # noqa
                    encode, exceptions, frame, header, heartbeat)
